@@ -447,6 +447,14 @@ func runC16(c *Ctx) {
 		}
 	}
 
+	// ---------- R12 the listing's decoders thread their cursor ----------
+	// entries carry no length of their own: a decoder below ReadDir that drops the rest of one field (a shadowed buffer
+	// in the loop over extended attributes) reads every later entry of the batch from a stale position
+	if rd := p.Func("(*Client).ReadDirContext"); rd != nil {
+		n := checkCursorThreading(c, "R12", p.cone(rd))
+		c.check(n >= 1, "R12", "last-decode sites below ReadDir", p.Pos(rd.Pos()), fmt.Sprintf("%d sites", n), "no decode site found below ReadDirContext")
+	}
+
 	// ---------- R4 client loop ----------
 	if rd := p.Func("(*Client).ReadDirContext"); rd == nil {
 		c.missing("R4", "(*Client).ReadDirContext")
